@@ -589,9 +589,15 @@ func (vf *VerifyFunc) builtin(st *State, fr *Frame, in ssa.Instruction, name str
 		case SInt:
 			switch a.T.Underlying().(type) {
 			case *types.Map:
-				_, _, _, _, lk, _, _ := mapHeap(a.T)
+				dk, das, _, _, lk, ks, _ := mapHeap(a.T)
 				l := sel(st.heapGet(lk, "(Array Int Int)"), a.Tm)
 				st.assume("(>= " + l + " 0)")
+				if ks != "" {
+					// the length counts the keys: a present key means length >= 1 (and length 0 means no key)
+					dom := st.fresh("dom", "(Array "+ks+" Bool)")
+					st.assume(eq(dom, sel(st.heapGet(dk, das), a.Tm)))
+					st.assume("(forall ((mk " + ks + ")) (! (=> (select " + dom + " mk) (>= " + l + " 1)) :pattern ((select " + dom + " mk))))")
+				}
 				return intVal(ite(eq(a.Tm, "0"), "0", l))
 			case *types.Chan:
 				r := st.fresh("chanlen", SInt)
@@ -658,9 +664,13 @@ func (vf *VerifyFunc) builtin(st *State, fr *Frame, in ssa.Instruction, name str
 		}
 		return nil
 	case "close":
+		cas := "(Array Int Bool)"
+		ch := st.heapGet("CH:closed", cas)
 		if vf.nopanic {
 			st.check("nopanic", "close-nil@"+st.pos(in), "C14", "close of nil channel", st.pos(in), not(eq(args[0].Tm, "0")))
+			st.check("nopanic", "close-closed@"+st.pos(in), "C14", "close of closed channel", st.pos(in), not(sel(ch, args[0].Tm)))
 		}
+		st.heapSet("CH:closed", cas, store(ch, args[0].Tm, "true"))
 		return nil
 	case "panic":
 		if vf.nopanic {
